@@ -370,9 +370,9 @@ pub fn check(tier: &str) -> Report {
   ];
   let mut work: Vec<(Kind, Src, Arc<Vec<Vec<Call>>>)> = vec![];
   for kind in [Kind::Publish, Kind::RefCount, Kind::Replay] {
-    let hh = Arc::new(histories(kind, true, if th { 7 } else { 6 }));
+    let hh = Arc::new(histories(kind, true, if th { 9 } else { 7 }));
     work.push((kind, Src::Hot, hh));
-    let hc = Arc::new(histories(kind, false, if th { 7 } else { 6 }));
+    let hc = Arc::new(histories(kind, false, if th { 10 } else { 8 }));
     for c in &colds {
       work.push((kind, c.clone(), hc.clone()));
     }
